@@ -579,6 +579,19 @@ def define_class(spec: dict, world: World):
                 if isinstance(v, (int, float)) and v < 0:
                     raise ValueError(f"{_first} must be non-negative")
         ns['__post_init__'] = __post_init__
+    elif pi == 'fill_df':
+        # a hook that fills a derived container in place (an index, a tag list): legitimate for a container that the
+        # instance owns - every instance must get its own from `default_factory`
+        dfs = [f['n'] for f in spec['fields'] if 'df' in f]
+
+        def __post_init__(self, _dfs=tuple(dfs)):
+            for n in _dfs:
+                c = getattr(self, n, None)
+                if isinstance(c, list):
+                    c.append(len(c))
+                elif isinstance(c, dict):
+                    c[f'k{len(c)}'] = len(c)
+        ns['__post_init__'] = __post_init__
 
     bases: t.List[t.Any] = []
     if spec.get('base') is not None:
@@ -1260,6 +1273,8 @@ def gen_class_spec(rng, world: World, name, kinds, scalars, generic_p=0.25, inhe
     spec = {'name': name, 'fields': fields, 'opts': {k: v for (k, v) in opts.items() if v is not None},
             'tv': tv, 'base': base, 'custom': rng.choice(list(custom_specs)),
             'post_init': 'first_nonneg' if rng.random() < 0.15 else None}
+    if any('df' in f for f in fields) and rng.random() < 0.5:
+        spec['post_init'] = 'fill_df'
     for f in spec['fields']:
         f['t'] = normalise_unions(f['t'])
     if tag_p and rng.random() < tag_p and not tv and not base and 'tuple' not in in_format and not opts.get('rename'):
